@@ -62,6 +62,50 @@ for energies, J in (([12000.0, 12100.0], 100.0), ([12000.0, 12300.0, 11900.0], 6
                         if x < 500 and p[b] > 1e-250 and abs(p[a] / p[b] - numpy.exp(x)) > 1e-6 * numpy.exp(x):
                             bad.append("%s: populations %d/%d in the ratio %.6g, Boltzmann %.6g" % (label, a, b, p[a] / p[b], numpy.exp(x)))
 
+# ---- same physical state whether requested inside or outside a basis context (states whose basis is fixed by the request) ---------
+ta_ = qr.TimeAxis(0.0, 300, 1.0)
+
+
+def aggregate_with_bath(energies, coupling):
+    with qr.energy_units("1/cm"):
+        mols = []
+        for k, e in enumerate(energies):
+            m = qr.Molecule([0.0, e])
+            m.set_dipole(0, 1, [1.0, 0.2 * k, 0.0])
+            m.set_transition_environment((0, 1), qr.CorrelationFunction(ta_, dict(ftype="OverdampedBrownian", reorg=30.0 + 10 * k,
+                                                                                   cortime=80.0, T=300)))
+            mols.append(m)
+        agg_ = qr.Aggregate(mols)
+        for k in range(len(mols) - 1):
+            agg_.set_resonance_coupling(k, k + 1, coupling)
+    agg_.build()
+    return agg_
+
+
+for energies, J in (([12000.0, 12200.0], 150.0), ([12000.0, 12300.0, 11900.0], 80.0)):
+    agg = aggregate_with_bath(energies, J)
+    Hc = agg.get_Hamiltonian()
+    for T in (5.0, 300.0):
+        for lim in ("weak_coupling", "strong_coupling"):
+            label = "energies %s, J=%g, T=%g K, thermal_excited_state/%s" % (energies, J, T, lim)
+            try:
+                r_out = agg.get_DensityMatrix(condition_type="thermal_excited_state", relaxation_theory_limit=lim, temperature=T)
+                d_out = numpy.array(r_out.data).copy()
+                with qr.eigenbasis_of(Hc):
+                    r_in = agg.get_DensityMatrix(condition_type="thermal_excited_state", relaxation_theory_limit=lim, temperature=T)
+                d_in = numpy.array(r_in.data).copy()
+            except Exception as e:      # noqa
+                bad.append("%s: raised %s: %s" % (label, type(e).__name__, str(e)[:100]))
+                continue
+            if not numpy.allclose(d_out, d_in, atol=1e-9):
+                where = "excitonic equilibrium" if lim == "weak_coupling" else "site equilibrium (strong coupling) requested inside a basis context"
+                bad.append("%s: %s is a different physical state when requested inside eigenbasis_of(H) than outside "
+                           "(max deviation %.3g)" % (label, where, abs(d_out - d_in).max()))
+            if lim == "weak_coupling":
+                Hd = numpy.array(Hc.data)
+                if abs(Hd @ d_out - d_out @ Hd).max() > 1e-9 * abs(Hd).max():
+                    bad.append("%s: the excitonic equilibrium requested from the site basis does not commute with the Hamiltonian" % label)
+
 # ---- molecular version: OpenSystem.get_thermal_ReducedDensityMatrix (temperature taken from the environment) ---------------------
 ta = qr.TimeAxis(0.0, 200, 1.0)
 for energies, modes in (([0.0, 12000.0], 0), ([0.0, 300.0], 0), ([0.0, 150.0, 420.0], 0), ([0.0, 12000.0], 1)):
